@@ -11,6 +11,7 @@
 #include <poll.h>
 #include <set>
 #include <sys/mman.h>
+#include <sys/personality.h>
 #include <sys/prctl.h>
 #include <sys/resource.h>
 #include <sys/syscall.h>
@@ -197,7 +198,15 @@ Case* current() {
   return g_case;
 }
 
-void Case::fail(const std::string& sig, const std::string& msg) {
+void Case::fail(const std::string& sig0, const std::string& msg0) {
+  // a case may declare a signature class ("sigclass" parameter): every failure of such a case is
+  // reported under that class (the concrete signature moves into the message). Used for input
+  // regions that are listed as one known finding.
+  std::string sig = sig0, msg = msg0;
+  if (p.has("sigclass")) {
+    sig = p.s("sigclass");
+    msg = "[" + sig0 + "] " + msg0;
+  }
   std::string v = isKnown(sig) ? "known" : "fail";
   accumulateCase(*this);
   std::string tail;
@@ -258,6 +267,18 @@ static void runOneInChild(const Prop& prop, Case& c) {
 }
 
 int runMain(int argc, char** argv, const Prop* props, int nprops) {
+  // Address-space layout randomisation off (re-exec once): heap/stack addresses feed hash tables in
+  // the code under test (moodycamel's implicit-producer hash), so replay by parameters is only
+  // bit-for-bit reproducible with a fixed layout.
+  if (!getenv("VF_NO_REEXEC")) {
+    int pers = personality(0xffffffff);
+    if (pers != -1 && !(pers & ADDR_NO_RANDOMIZE)) {
+      if (personality((unsigned long)pers | ADDR_NO_RANDOMIZE) != -1) {
+        setenv("VF_NO_REEXEC", "1", 1);
+        execv("/proc/self/exe", argv);
+      }
+    }
+  }
   std::string propId, part, tier = "quick", knownStr, replayKv;
   uint64_t seed = 1;
   long cases = -1;
@@ -559,6 +580,12 @@ int runMain(int argc, char** argv, const Prop* props, int nprops) {
           }
           sig += ":" + oneLine(k2);
         }
+        std::string rawSig = sig;
+        {
+          KV ckv = KV::parse(kv);
+          if (ckv.has("sigclass"))
+            sig = ckv.s("sigclass");
+        }
         bool isKnown = false;
         for (auto& k : known)
           if (k == sig)
@@ -568,7 +595,7 @@ int runMain(int argc, char** argv, const Prop* props, int nprops) {
         else {
           failSigs[sig]++;
           if (failures.size() < (keepGoing ? 600u : 20u))
-            failures.push_back(Failure{"fail", sig, oneLine(err.substr(err.size() > 1500 ? err.size() - 1500 : 0)), kv, idx});
+            failures.push_back(Failure{"fail", sig, "[" + rawSig + "] " + oneLine(err.substr(err.size() > 1500 ? err.size() - 1500 : 0)), kv, idx});
           if (!keepGoing)
             stop = true;
         }
